@@ -1,6 +1,6 @@
 (* C03: the decoder accepts exactly the encodings the specification allows. *)
 From PV Require Import Base MachineInt VarintParams GenArith GenLoops Varint Utf8 DataModel Ser De
-  WireFormat VarintFacts VarintCore DeFacts DeSpec Locality.
+  WireFormat VarintFacts VarintCore DeFacts DeSpec Locality DeMethods DeMethodFacts.
 Open Scope N_scope.
 
 (* On every input the bit-level decoder of the implementation (varint loops with the
@@ -82,6 +82,19 @@ Theorem C03_strict_prefix_unexpected_end : forall (t : ty) (p : list byte) (v : 
   forall q q', p = q ++ q' -> q' <> [] -> de_slice t q = Err DeserializeUnexpectedEnd.
 Proof. exact de_strict_prefix_unexpected_end. Qed.
 
+(* the decoder model is not only run against the code: each of its clauses is what the body of
+   the corresponding method of de/deserializer.rs computes.  dvm drives an interpreter over the
+   method bodies the translator reads on every run (all 31 deserialize_* methods, the four
+   VariantAccess methods and variant_seed; SeqAccess / MapAccess by template) the way serde's
+   visitors call them, over any flavour whose try_take_n(n) hands out n bytes *)
+Theorem C03_model_is_the_method_bodies : forall (St : Type) (pop : St -> res (byte * St)) (take_n : N -> St -> res (list byte * St)),
+  (forall n s bs s', take_n n s = Ok (bs, s') -> length bs = N.to_nat n) ->
+  forall t s, dvm pop take_n t s = de pop take_n t s.
+Proof. exact @de_methods_agree. Qed.
+Theorem C03_slice_decoder_is_the_method_bodies : forall (t : ty) (l : list byte),
+  dvm slice_pop slice_take_n t l = de_slice t l.
+Proof. exact de_slice_is_the_method_bodies. Qed.
+
 Print Assumptions C03_de_is_spec.
 Print Assumptions C03_varint_exact.
 Print Assumptions C03_varint_errors.
@@ -89,3 +102,5 @@ Print Assumptions C03_accepts_encodings.
 Print Assumptions C03_primitive_errors.
 Print Assumptions C03_remaining_bytes_irrelevant.
 Print Assumptions C03_strict_prefix_unexpected_end.
+Print Assumptions C03_model_is_the_method_bodies.
+Print Assumptions C03_slice_decoder_is_the_method_bodies.
